@@ -148,7 +148,7 @@ func runC03(c *an.Ctx) {
 			switch x := n.(type) {
 			case *ast.KeyValueExpr:
 				if id, ok := x.Key.(*ast.Ident); ok {
-					if fv, ok := an.ObjOf(info, id).(*types.Var); ok && fv.IsField() && p.FieldOwner(fv)+"."+fv.Name() == "TextNode.Text" {
+					if fv, ok := an.ObjOf(info, id).(*types.Var); ok && fv.IsField() && p.FieldOwner(fv)+"."+an.RoleOf(fv) == "TextNode.Text" {
 						check(x.Value, x.Pos())
 					}
 				}
